@@ -125,7 +125,7 @@ func BuildJournal(source GtfsrtSource, startTime, endTime time.Time) *Journal {
 		newActiveTrips := map[string]bool{}
 		for _, tripUpdate := range feedMessage.Trips {
 			startTime := tripUpdate.ID.StartDate.Add(tripUpdate.ID.StartTime)
-			tripUID := fmt.Sprintf("%d%s", startTime.Unix(), tripUpdate.ID.ID[6:])
+			tripUID := fmt.Sprintf("%d%s", startTime.Unix(), tripIDSuffix(tripUpdate.ID.ID))
 			if existingTrip, ok := trips[tripUID]; ok {
 				existingTrip.update(&tripUpdate, createdAt)
 			} else {
@@ -177,7 +177,7 @@ func (trip *Trip) update(tripUpdate *gtfs.Trip, feedCreatedAt time.Time) {
 	startTime := tripUpdate.ID.StartDate.Add(tripUpdate.ID.StartTime)
 	vehicle := tripUpdate.GetVehicle()
 
-	trip.TripUID = fmt.Sprintf("%d%s", startTime.Unix(), tripUpdate.ID.ID[6:])
+	trip.TripUID = fmt.Sprintf("%d%s", startTime.Unix(), tripIDSuffix(tripUpdate.ID.ID))
 	trip.TripID = tripUpdate.ID.ID
 	trip.RouteID = tripUpdate.ID.RouteID
 	trip.DirectionID = tripUpdate.ID.DirectionID
@@ -218,6 +218,16 @@ func (trip *Trip) update(tripUpdate *gtfs.Trip, feedCreatedAt time.Time) {
 	if len(p.new) != 0 {
 		trip.NumScheduleChanges += 1
 	}
+}
+
+// tripIDSuffix returns the trip ID without its 6 character origin time prefix.
+//
+// Trip IDs that are shorter than the prefix have an empty suffix.
+func tripIDSuffix(tripID string) string {
+	if len(tripID) < 6 {
+		return ""
+	}
+	return tripID[6:]
 }
 
 func (trip *Trip) markPast(feedCreatedAt time.Time) {
